@@ -258,6 +258,17 @@ def _with_consts(node, consts):
     return out
 
 
+def _numbered_key(k):
+    """'comment_' followed by the formatted line counter: "comment_{0:02d}".format(i) or f"comment_{i:02d}" """
+    from .. import pq
+    if pq.call_named(k, ".format") and len(k[2]) == 2 and k[2][0][0] == 'sym' and re.fullmatch(r"'comment_\{0?(:0?\d*d)?\}'", k[2][0][1]):
+        return True
+    if pq.call_named(k, "fstr") and len(k[2]) == 2 and k[2][0] == ('sym', "'comment_'"):
+        v = k[2][1]
+        return not pq.call_named(v, "fmt") or (v[2][1][0] == 'sym' and re.fullmatch(r"'0?\d*d'", v[2][1][1]) is not None)
+    return False
+
+
 def run(rep):
     rel = "io/csv.py"
     mod = Mod(rep.repo, rel)
@@ -798,7 +809,7 @@ def run(rep):
             okks = okks and bool(pq.find(e.key, lambda x: pq.same(x, RAW)))
         elif win is False:
             nfree += 1
-            okfree = okfree and pq.same(e.val, E) and pq.call_named(e.key, ".format") and e.key[2][0] == ('sym', "'comment_{0:02d}'")
+            okfree = okfree and pq.same(e.val, E) and _numbered_key(e.key)
         else:
             okks = okvs = okkn = okfree = False
         if pq.cond_truth(fc, ('cmp', '!=', e.val, ('sym', "''"))) is not True:
